@@ -29,7 +29,7 @@ class C38(core.Prop):
     def strategy(self, tier):
         big = tier == "thorough"
         self.none_limit = 3000 if big else 400
-        prog = syncgen.programs(kinds=("mutex", "sem", "cond", "barrier", "mailbox", "random"), max_actors=4 if big else 3,
+        prog = syncgen.programs(kinds=("mutex", "sem", "cond", "barrier", "mailbox", "random", "tick"), max_actors=4 if big else 3,
                                 max_ops=8 if big else 6, mc=True, max_mutex=1, max_sem=1, max_cond=1, max_bar=1,
                                 profile="contention")
         variant = st.fixed_dictionaries({"algo": st.sampled_from(["DFS", "DFS", "BeFS"]),
